@@ -196,7 +196,7 @@ theorem codes_readRespText_copyCode (tagged : Bool) (d : CopyData) (hv : d.uidVa
 
 /-! ### APPENDUID, and a status response without a code -/
 
-theorem codes_readRespText_appenduid (v u : Nat) (hv : v < 4294967296) (hu : u < 4294967296) (text rest : Str)
+theorem codes_readRespText_appenduid (v u : Nat) (hv : v < 4294967296) (hu : u < 4294967296) (hu0 : u ≠ 0) (text rest : Str)
     (hx : IsText text) :
     readRespText true (32 :: 91 :: (asc "APPENDUID" ++ 32 :: (encNumber v ++ 32 :: (encNumber u ++
       93 :: 32 :: (text ++ 13 :: 10 :: rest))))) = some (Code.appendUID v u, 13 :: 10 :: rest) := by
@@ -218,7 +218,7 @@ theorem codes_readRespText_appenduid (v u : Nat) (hv : v < 4294967296) (hu : u <
   unfold readRespText
   rw [hd0]
   simp only [hta]
-  simp [n1, hs1, hn1, hs2, hn2, hds, htx]
+  simp [n1, hs1, hn1, hs2, hn2, hds, htx, hu0]
 
 theorem codes_readRespText_plain (tagged : Bool) (text rest : Str) (hx : IsText text) :
     readRespText tagged (32 :: (text ++ 13 :: 10 :: rest)) = some (Code.none, 13 :: 10 :: rest) := by
@@ -299,7 +299,7 @@ theorem codes_parseAll_single (l : Str) (e : Event) (h : ReadsAs l e) : parseAll
 
 /-- `tag OK [APPENDUID v u] text` (append.go writeAppendOK) is read as the completion carrying the code -/
 theorem appenduid_line (tag text : Str) (ht : IsTag tag) (hx : IsText text) (v u : Nat) (hv : v < 4294967296)
-    (hu : u < 4294967296) :
+    (hu : u < 4294967296) (hu0 : u ≠ 0) :
     ReadsAs (tag ++ asc " OK " ++ appendCodeText (some { uidValidity := v, uid := u }) ++ text ++ CRLFb)
       (Event.done tag (asc "OK") (Code.appendUID v u)) := by
   have e : tag ++ asc " OK " ++ appendCodeText (some { uidValidity := v, uid := u }) ++ text ++ CRLFb =
@@ -308,7 +308,7 @@ theorem appenduid_line (tag text : Str) (ht : IsTag tag) (hx : IsText text) (v u
   rw [e]
   apply codes_done_of_respText tag _ ht
   intro rest
-  have h := codes_readRespText_appenduid v u hv hu text rest hx
+  have h := codes_readRespText_appenduid v u hv hu hu0 text rest hx
   simpa [List.append_assoc] using h
 
 theorem appenduid_deliver (tag : Str) (v u : Nat) :
@@ -316,10 +316,10 @@ theorem appenduid_deliver (tag : Str) (v u : Nat) :
 
 /-- APPEND fidelity for a backend that supplies data: the line is read and the data is what `Wait` returns -/
 theorem append_some_fidelity (tag text : Str) (ht : IsTag tag) (hx : IsText text) (d : AppendData)
-    (hv : d.uidValidity < 4294967296) (hu : d.uid < 4294967296) :
+    (hv : d.uidValidity < 4294967296) (hu : d.uid < 4294967296) (hu0 : d.uid ≠ 0) :
     (parseAll (tag ++ asc " OK " ++ appendCodeText (some d) ++ text ++ CRLFb)).map deliverAppend =
       some (RespSpec.canonAppend (some d)) := by
-  rw [codes_parseAll_single _ _ (appenduid_line tag text ht hx d.uidValidity d.uid hv hu)]
+  rw [codes_parseAll_single _ _ (appenduid_line tag text ht hx d.uidValidity d.uid hv hu hu0)]
   rfl
 
 /-- without data (`appendCodeText none = []`) the line is the plain completion -/
@@ -338,7 +338,7 @@ theorem append_none_fidelity (tag text : Str) (ht : IsTag tag) (hx : IsText text
 
 example : ReadsAs (asc "A1" ++ asc " OK " ++ appendCodeText (some { uidValidity := 7, uid := 4294967295 }) ++ asc "done" ++ CRLFb)
     (Event.done (asc "A1") (asc "OK") (Code.appendUID 7 4294967295)) :=
-  appenduid_line _ _ (codes_isTag_of _ (by decide)) (codes_isText_of _ (by decide)) 7 4294967295 (by decide) (by decide)
+  appenduid_line _ _ (codes_isTag_of _ (by decide)) (codes_isText_of _ (by decide)) 7 4294967295 (by decide) (by decide) (by decide)
 
 /-! ## B. COPYUID on the tagged completion -/
 
@@ -406,13 +406,13 @@ theorem codes_flat (l1 dl : Str) (ex : List Nat) :
   simp [printExpunges, List.flatMap]
 
 /-- a first line, the EXPUNGE lines and the completion are read as that many events -/
-theorem codes_move_stream (l1 : Str) (e1 : Event) (h1 : ReadsAs l1 e1) (ex : List Nat) (hex : ∀ n ∈ ex, n < 4294967296)
+theorem codes_move_stream (l1 : Str) (e1 : Event) (h1 : ReadsAs l1 e1) (ex : List Nat) (hex : ∀ n ∈ ex, n ≠ 0 ∧ n < 4294967296)
     (tag text : Str) (ht : IsTag tag) (hx : IsText text) :
     parseAll (l1 ++ printExpunges ex ++ (tag ++ asc " OK " ++ text ++ CRLFb)) =
       some ([e1] ++ ex.map Event.expunge ++ [Event.done tag (asc "OK") Code.none]) := by
   rw [codes_flat]
   exact parseAll_lines _ _ (AllRead.append (AllRead.append (AllRead.single h1)
-    (AllRead.map _ _ ex (fun n hn => expunge_line n (hex n hn)))) (AllRead.single (done_line tag text ht hx)))
+    (AllRead.map _ _ ex (fun n hn => expunge_line n (hex n hn).1 (hex n hn).2))) (AllRead.single (done_line tag text ht hx)))
 
 theorem codes_foldl_skip {α β : Type} (f : α → β → α) (l : List β) (h : ∀ a, ∀ b ∈ l, f a b = a) (acc : α) :
     l.foldl f acc = acc := by
@@ -488,7 +488,7 @@ theorem move_lines (d : CopyData) (ex : List Nat) (tag text : Str) (ht : IsTag t
     (hv : d.uidValidity < 4294967296)
     (hs : NumSet.Canon d.src) (hsne : d.src ≠ []) (hsd : NumSet.dynamic d.src = false)
     (hd : NumSet.Canon d.dst) (hdne : d.dst ≠ []) (hdd : NumSet.dynamic d.dst = false)
-    (hex : ∀ n ∈ ex, n < 4294967296) (bytes : Str) (hp : printMove (some d) ex = some bytes) :
+    (hex : ∀ n ∈ ex, n ≠ 0 ∧ n < 4294967296) (bytes : Str) (hp : printMove (some d) ex = some bytes) :
     parseAll (bytes ++ (tag ++ asc " OK " ++ text ++ CRLFb)) =
       some ([Event.cond (asc "OK") (Code.copyUID d.uidValidity d.src d.dst)] ++ ex.map Event.expunge ++
         [Event.done tag (asc "OK") Code.none]) := by
@@ -507,14 +507,14 @@ theorem move_some_fidelity (d : CopyData) (ex : List Nat) (tag text : Str) (ht :
     (hv : d.uidValidity < 4294967296)
     (hs : NumSet.Canon d.src) (hsne : d.src ≠ []) (hsd : NumSet.dynamic d.src = false)
     (hd : NumSet.Canon d.dst) (hdne : d.dst ≠ []) (hdd : NumSet.dynamic d.dst = false)
-    (hex : ∀ n ∈ ex, n < 4294967296) (bytes : Str) (hp : printMove (some d) ex = some bytes) :
+    (hex : ∀ n ∈ ex, n ≠ 0 ∧ n < 4294967296) (bytes : Str) (hp : printMove (some d) ex = some bytes) :
     (parseAll (bytes ++ (tag ++ asc " OK " ++ text ++ CRLFb))).map deliverMove = some (RespSpec.canonCopy (some d), ex) := by
   rw [move_lines d ex tag text ht hx hv hs hsne hsd hd hdne hdd hex bytes hp]
   simp only [Option.map_some, codes_deliverMove_copy]
   rfl
 
 theorem move_none_lines (ex : List Nat) (tag text : Str) (ht : IsTag tag) (hx : IsText text)
-    (hex : ∀ n ∈ ex, n < 4294967296) (bytes : Str) (hp : printMove none ex = some bytes) :
+    (hex : ∀ n ∈ ex, n ≠ 0 ∧ n < 4294967296) (bytes : Str) (hp : printMove none ex = some bytes) :
     parseAll (bytes ++ (tag ++ asc " OK " ++ text ++ CRLFb)) =
       some ([Event.cond (asc "OK") Code.none] ++ ex.map Event.expunge ++ [Event.done tag (asc "OK") Code.none]) := by
   have hp' : printMove none ex = some (asc "* OK " ++ [] ++ asc "COPY completed\r\n" ++ printExpunges ex) := rfl
@@ -524,7 +524,7 @@ theorem move_none_lines (ex : List Nat) (tag text : Str) (ht : IsTag tag) (hx : 
   exact codes_move_stream _ _ move_plain_line ex hex tag text ht hx
 
 theorem move_none_fidelity (ex : List Nat) (tag text : Str) (ht : IsTag tag) (hx : IsText text)
-    (hex : ∀ n ∈ ex, n < 4294967296) (bytes : Str) (hp : printMove none ex = some bytes) :
+    (hex : ∀ n ∈ ex, n ≠ 0 ∧ n < 4294967296) (bytes : Str) (hp : printMove none ex = some bytes) :
     (parseAll (bytes ++ (tag ++ asc " OK " ++ text ++ CRLFb))).map deliverMove = some (RespSpec.canonCopy none, ex) := by
   rw [move_none_lines ex tag text ht hx hex bytes hp]
   simp only [Option.map_some, codes_deliverMove_none]
